@@ -38,8 +38,9 @@ Deliver in /tmp/mut6/out/{pid}_1 and /tmp/mut6/out/{pid}_2 (create the directori
                   violation of the property on a concrete input / call sequence; self-contained)
   why.txt         first line: a plausible commit message; then 5–10 lines: what changed, why it breaks the property as
                   stated, the witness input / call sequence, exactly what it needs to manifest, what still works
-Verify yourself, for each: suite passes with the patch (5 runs); demo fails with it and passes on the original (use
-`git stash` / `git checkout -- .` inside the worktree; leave the worktree clean at the end, no demo file). Finish with a
+Verify yourself, for each: suite passes with the patch (5 runs); demo fails with it and passes on the original (save the change with
+`git diff > /tmp/.../p.diff`, `git checkout -- .`, later `git apply` — do NOT use `git stash`: the stash is shared by all
+worktrees of the repository and other testers work in parallel; leave the worktree clean at the end, no demo file). Finish with a
 short summary per change.
 """
     open(f'/tmp/mut6/prompts/{pid}.txt', 'w').write(out)
